@@ -18,7 +18,7 @@ import (
 	"sync/atomic"
 
 	"github.com/alibaba/sentinel-golang/core/base"
-	"github.com/alibaba/sentinel-golang/logging"
+	"github.com/alibaba/sentinel-golang/core/hotspot/cache"
 )
 
 const (
@@ -54,15 +54,10 @@ func (c *ConcurrencyStatSlot) OnEntryPassed(ctx *base.EntryContext) {
 			continue
 		}
 		metric := tc.BoundMetric()
-		concurrencyPtr, existed := metric.ConcurrencyCounter.Get(arg)
-		if !existed || concurrencyPtr == nil {
-			if logging.DebugEnabled() {
-				logging.Debug("[ConcurrencyStatSlot OnEntryPassed] Parameter does not exist in ConcurrencyCounter.", "argument", arg)
-			}
+		if metric == nil || metric.ConcurrencyCounter == nil {
 			continue
 		}
-		atomic.AddInt64(concurrencyPtr, 1)
-		units = append(units, concurrencyPtr)
+		units = append(units, takeUnit(metric.ConcurrencyCounter, arg))
 	}
 	if len(units) > 0 {
 		if ctx.Data == nil {
@@ -70,6 +65,35 @@ func (c *ConcurrencyStatSlot) OnEntryPassed(ctx *base.EntryContext) {
 		}
 		ctx.Data[unitsKey{}] = units
 	}
+}
+
+// takeUnit counts one entry in flight for arg and returns the counter that holds the unit. The counter the
+// check created stands at zero until the entry is counted here, and a counter at zero can be evicted by
+// requests for other values in between (the wait of a throttling rule on the same resource is slept between
+// the check and this point): the entry then went uncounted for as long as it lived, and the value was
+// admitted beyond its threshold. The unit is therefore taken first, on the cached counter or on a new one,
+// and then the counter holding it is made sure to be the one in the cache (a counter that is not zero is
+// never evicted).
+func takeUnit(counters cache.ConcurrentCounterCache, arg interface{}) *int64 {
+	ptr, found := counters.Get(arg)
+	if !found || ptr == nil {
+		ptr = new(int64)
+	}
+	atomic.AddInt64(ptr, 1)
+	for i := 0; i < 8; i++ {
+		if cur, ok := counters.Get(arg); ok && cur == ptr {
+			return ptr
+		}
+		prior := counters.AddIfAbsent(arg, ptr)
+		if prior == nil || prior == ptr {
+			return ptr
+		}
+		// somebody created another counter for the value meanwhile: the unit moves there
+		atomic.AddInt64(prior, 1)
+		atomic.AddInt64(ptr, -1)
+		ptr = prior
+	}
+	return ptr
 }
 
 func (c *ConcurrencyStatSlot) OnEntryBlocked(ctx *base.EntryContext, blockError *base.BlockError) {
